@@ -141,6 +141,20 @@ BLOCKS: list[tuple[str, str]] = [
     ("ol-digit-gain-nested", "8. qaa\n9. qab\n10. qac\n    - qad\n    - qae\n"),
     ("ol-digit-gain-code", "99. qaa\n100. qab\n\n     ```\n     x\n     ```\n"),
     ("ol-start-0", "0. qaa qab\n1. qac\n"),
+    ("alert-in-list", "- qaa\n\n  > [!NOTE]\n  > qab qac qad\n- qae\n"),
+    ("alert-in-quote", "> qaa\n>\n> > [!TIP]\n> > qab qac qad\n"),
+    ("alert-in-olist", "1. qaa\n\n   > [!WARNING]\n   > qab qac\n2. qad\n"),
+    ("alert-first-in-item", "- > [!NOTE]\n  > qaa qab qac\n- qad\n"),
+    ("alert-in-footnote", "qaa[^n]\n\n[^n]: qab\n\n    > [!NOTE]\n    > qac qad\n"),
+    ("table-in-list", "- qaa\n\n  | qab | qac |\n  |---|---|\n  | qad | qae |\n- qaf\n"),
+    ("table-in-quote", "> | qaa | qab |\n> |:-:|--:|\n> | qac qad | qae |\n"),
+    ("refdef-in-quote", "> [qaa][r] qab\n>\n> [r]: http://u/x \"qac qad\"\n"),
+    ("footnote-two-blocks", "qaa[^n]\n\n[^n]: qab qac\n\n    qad qae qaf\n\nqag\n"),
+    ("footnote-code", "qaa[^n]\n\n[^n]: qab\n\n    ```\n    x\n    ```\n"),
+    ("image-para", "![qaa qab](i.png \"qac\") qad ![qae](<a b.png>)\n"),
+    ("autolink-email", "qaa <qab@example.com> qac <http://u/qad>\n"),
+    ("strike-variants", "qaa ~qab~ ~~qac qad~~ qae~ ~qaf\n"),
+    ("table-pipes", "| `qaa\\|qab` | qac \\| qad |\n|---|---|\n| \\\\ | qae |\n"),
     ("quote-heading", "> ## qaa qab\n>\n> qac qad qae\n"),
     ("quote-heading-last", "> qaa qab\n>\n> ## qac\n\nqad qae\n"),
     ("quote-heading-only", "> # qaa\n"),
